@@ -144,3 +144,100 @@ fn c20_peer_cache_full_unrelated() {
     }
     mem::forget(r);
 }
+
+// ------------------------------------------------------------------ C17 ---
+// Built with `--features testing,libc,low-mem-usage` (COMMAND_RESPONSE_MAX = 5), so a response
+// fills up after five commands: the same code, a smaller constant of the repository's own.
+
+fn responder_with(to_send: Location) -> SyncResponder {
+    let mut r = SyncResponder::new();
+    r.session_id = Some(7);
+    r.graph_id = Some(GraphId::default());
+    r.state = SyncResponderState::Send;
+    r.message_index = 3;
+    r.next_send = 0;
+    let _ = r.to_send.push(to_send);
+    r
+}
+
+/// ⟦SyncResponder::get_commands⟧ on a segment holding max cuts [FIRST, FIRST+N), sending from START
+/// (possibly mid-segment), response capacity COMMAND_RESPONSE_MAX = 5:
+/// * the response carries the next min(5, remaining) commands, consecutively from START;
+/// * if the segment is not exhausted its entry is rewritten to (segment, START + sent) — the first
+///   unsent command — and the send index stays on it; otherwise the index moves past it.
+/// Two consecutive calls never repeat or skip a command (checked by calling it twice).
+#[cfg(feature = "low-mem-usage")]
+fn resume_contract<const FIRST: u64, const N: u64, const START: u64>() {
+    assert!(COMMAND_RESPONSE_MAX == 5);
+    let mut sp = MSP::any();
+    sp.storage.seg_first = FIRST;
+    sp.storage.seg_ncmds = N;
+    let seg = crate::SegmentIndex::new(1);
+    let mut r = responder_with(Location::new(seg, MaxCut::new(START)));
+    let end = FIRST + N;
+    let mut next = START;
+    let mut round = 0;
+    while round < 2 && next < end {
+        let (commands, _data, index) = match r.get_commands(&mut sp) {
+            Ok(x) => x,
+            Err(_) => panic!("get_commands failed"),
+        };
+        let want = core::cmp::min(5, end - next);
+        assert!(commands.len() as u64 == want);
+        let mut k = 0;
+        while k < commands.len() {
+            assert!(id_byte(commands[k].id) as u64 == next + k as u64);
+            k += 1;
+        }
+        next += want;
+        if next < end {
+            assert!(index == 0);
+            assert!(r.to_send[0] == Location::new(seg, MaxCut::new(next)));
+        } else {
+            assert!(index == 1);
+        }
+        r.next_send = index; // what get_next does after a delivered response
+        round += 1;
+    }
+    mem::forget(r);
+}
+
+#[cfg(feature = "low-mem-usage")]
+#[kani::proof]
+#[kani::unwind(40)]
+fn c17_resume_from_segment_start() {
+    resume_contract::<10, 7, 10>();
+}
+#[cfg(feature = "low-mem-usage")]
+#[kani::proof]
+#[kani::unwind(12)]
+fn c17_resume_from_mid_segment() {
+    // sending starts at max cut 12 of a segment holding 10..=17: 5 now (12..=16), resume at 17, then 1
+    resume_contract::<10, 8, 12>();
+}
+
+/// ⟦SyncResponder::get_next⟧, nothing left to send: writes SyncEnd{max_index = message_index},
+/// goes Idle, advances neither the response index nor the send index; never writes beyond the buffer.
+#[kani::proof]
+#[kani::unwind(34)]
+fn c17_get_next_end_of_session() {
+    let mut r = SyncResponder::new();
+    r.session_id = Some(kani::any());
+    r.graph_id = Some(GraphId::default());
+    r.state = SyncResponderState::Send;
+    let idx: usize = kani::any();
+    r.message_index = idx;
+    r.next_send = 0; // to_send is empty
+    let mut sp = MSP::any();
+    let mut buf = [0u8; 64];
+    let blen: usize = kani::any();
+    kani::assume(blen <= 64);
+    let res = r.get_next(&mut buf[..blen], &mut sp);
+    assert!(r.message_index == idx && r.next_send == 0);
+    assert!(matches!(r.state, SyncResponderState::Idle));
+    if let Ok(n) = res {
+        assert!(n <= blen && n > 0);
+        kani::cover!(true);
+    }
+    mem::forget(res);
+}
